@@ -48,6 +48,12 @@ def kernelHandler : Handler
       match permanent (K := QI) (wrap == "1") (← threads.toNat?) A r c with
       | some z => pure (showQI z)
       | none => pure "none"
+  | ["permmaxint", rows] => do
+      -- rows as given by the caller; the kernel splits the smallest non-zero row first
+      let r ← parseNatList? rows
+      let (_, r') := splitRow (K := QI) (r.map (fun _ => [])) r
+      let mults := r'.drop 1
+      pure (toString (maxIntermediate mults (mults.map (· + 1))))
   | ["permdef", n, m, a, rows, cols] => do
       let n ← n.toNat?
       let m ← m.toNat?
